@@ -26,6 +26,15 @@ def concurrent(ctx, v, n):
     vlib.tlc_check(ctx.scratch, "MuxImplMC", "MuxImpl_FALSE.cfg", workers=1, expect_violation="NoCrash")
     vlib.tlc_check(ctx.scratch, "MuxImplMC", "MuxImpl_waits.cfg", workers=1, expect_violation="NeverWaitsBehindHandler")
     vlib.tlc_check(ctx.scratch, "MuxImplMC", "MuxImpl_leak.cfg", workers=1, expect_violation="ReadersAreRunning")
+    ind = None
+    if ctx.tier != "quick":
+        # unbounded: the lock protocol's invariant is inductive (Apalache), and is not when a panic can skip the unlock
+        t = vlib.apalache_check(ctx.scratch, "MuxLockInd", "IndInit", "IndInv", 1, None)
+        t += vlib.apalache_check(ctx.scratch, "MuxLockInd", "Init", "IndInv", 0, None)
+        t += vlib.apalache_check(ctx.scratch, "MuxLockInd", "IndInit", "Implied", 0, None)
+        t += vlib.apalache_check(ctx.scratch, "MuxLockInd", "IndInit", "IndInv", 1, None, expect_violation=True, next_="NextLeak")
+        ind = dict(module="MuxLockInd", seconds=round(t, 1), holds=True, sensitivity="NextLeak violates it")
+        ctx.log("inductive invariant of the mux lock protocol discharged by Apalache in %.0fs (step, base, implied; NextLeak fails as it must)" % t)
     d = ctx.scratch.sub("mc")
     tpath = os.path.join(d, "trace.ndjson")
     p = vlib.run_harness(ctx.harness, ["muxconc", "-out", tpath, "-seed", str(ctx.seed), "-n", str(n), "-repo", vlib.REPO], timeout=600)
@@ -37,6 +46,7 @@ def concurrent(ctx, v, n):
     scen = vlib.read_ndjson(tpath)
     conf = vlib.impl_conformance(ctx, "MuxImplTrace", MC_CFG.replace("Locked = TRUE", "Locked = FALSE"), scen, MC_FIELDS, "mc")
     strict = vlib.impl_conformance(ctx, "MuxImplTrace", MC_CFG, scen[:200], MC_FIELDS, "mcs")
+    conf["inductive_invariant"] = ind
     conf["lock_discipline"] = dict(status=strict["status"], drift=strict.get("drift", [])[:2])
     if conf["status"] == "inconclusive":   # (seen once: TLC failed to spill its state queue to disk) one more try
         conf = vlib.impl_conformance(ctx, "MuxImplTrace", MC_CFG.replace("Locked = TRUE", "Locked = FALSE"), scen, MC_FIELDS, "mc2")
